@@ -63,6 +63,38 @@ theorem core_stack_check_exact (cf : Core.Config) (args : List Int) (pr : Core.C
   let ⟨m, h, _⟩ := Core.core_overflow cf args pr hw hck hB hSE hnd hlen hsmall hpkM
   ⟨m, h⟩
 
+/-- **C04 on the core, calls**: the same at every call, at any depth of (recursive) calls: when the
+source run ends in `.ovf` — some callee's frame peak exceeds what is left of the stack at the
+moment of the call (`Core.callWith`) — a checked build prints exactly what was printed before,
+then `stack_overflow`, `error`, and stays in the terminal loop; the callee's body is never
+entered.  Together with `C01.core_semantic_preservation` (all other outcomes) this decides every
+call of every core program. -/
+theorem core_call_stack_check (cf : Core.Config) (args : List Int) (pr : Core.CProg)
+    (hw : 2 ≤ cf.w) (hck : cf.checked = true)
+    (hB : Core.progLen cf.checked pr + stdlibLength < 256 ^ cf.w) (hSE : Core.F0 cf args < 256 ^ cf.w)
+    (hwf : Core.wfProg pr = true) (hlen : args.length = pr.params.length)
+    (hpkF : ∀ fd ∈ pr.funs, Core.pkS cf.w (Core.entryOff cf.w fd.params) fd.body < 256 ^ cf.w)
+    (fuel : Nat) (env' : Core.Env) (tr : List Ev)
+    (hex : Core.srcRun cf fuel args pr = some (env', tr, .ovf))
+    (hroom : Core.pkS cf.w (Core.entryOff cf.w pr.params) pr.body ≤ Core.roomOf cf args) :
+    ∃ mEnd, Exec (sphinx (Core.coreProg cf pr)) (Core.coreInit cf args pr)
+      (tr ++ [Ev.flag "stack_overflow", Ev.flag "error"]) ⟨tntPc (Core.progLen cf.checked pr), mEnd⟩ :=
+  let ⟨m, h, _⟩ := Core.core_correct cf args pr hw hB hSE hwf hlen fuel env' tr .ovf hex (fun _ => hck) (fun _ => hpkF) hroom
+  ⟨m, h⟩
+
+/-- non-vacuity: a recursion of depth 3 prints `A` at each level; with 6 stack words at `w = 2` the
+third activation's frame does not fit: the source semantics says `AA` then overflow -/
+example :
+    let fbody : Core.S :=
+      .putc 65 (.ifb (.cmp .lt (.var "n") (.lit 1)) (.retE (.lit 0)) .nil
+        (.declCall "r" "f" [.bin .sub (.var "n") (.lit 1)] (.retE (.var "r"))))
+    let pr : Core.CProg :=
+      { params := [], funs := [{ name := "f", params := ["n"], body := fbody }],
+        body := .declCall "y" "f" [.lit 3] .ret }
+    Core.wfProg pr = true ∧
+    (Core.srcRun ⟨2, 6, true⟩ 20 [] pr).map (fun r => (r.2.1, r.2.2)) = some ([Ev.out 65, Ev.out 65], .ovf) := by
+  refine ⟨by decide, by decide +kernel⟩
+
 /-- the digit buffer the compiler accounts for (`(8w-1)·30103/100000 + 1` bytes) is long enough for
 the decimal form of every word value, at every word size (D4 cannot recur for any `w`) -/
 theorem write_int_buffer_sufficient (w : Nat) (hw : 1 ≤ w) (v : Nat) (hv : v < 256 ^ w) :
